@@ -6,7 +6,9 @@ import (
 	"bytes"
 	"context"
 	"fmt"
+	"os"
 	"runtime"
+	"runtime/debug"
 	"sort"
 	"strconv"
 	"strings"
@@ -266,9 +268,13 @@ func (s c04Set) parentsFirst(order []int) bool {
 // ---------------------------------------------------------------------------------------------
 // The well-formedness monitor
 
-type c04Problem struct{ Oracle, Sig, Msg string }
+type c04Problem struct {
+	Oracle, Sig, Msg string
+	Global           bool // the signature names one specific history shape and is reported without the call-site prefix
+}
 
 type c04TreeFacts struct {
+	NLeaves    int
 	Leaves     []string // sorted
 	LeafDel    map[string]bool
 	LiveLeaves int
@@ -306,9 +312,18 @@ func c04Dump(tree RevTree) []string {
 //     (#leaves > 1) / (#non-deleted leaves > 1);
 //   - full=true: the code's other leaf/ancestry accessors agree with the independent leaf set.
 func c04CheckTree(ctx context.Context, tree RevTree, full bool) (c04TreeFacts, []c04Problem) {
+	return c04CheckTreeLevel(ctx, tree, true, full)
+}
+
+// c04CheckTreeLevel: lists=false skips building the sorted leaf list / tombstone map of the returned facts
+// (the decisions are the same); used after every single mutation of the exhaustive part.
+func c04CheckTreeLevel(ctx context.Context, tree RevTree, lists bool, full bool) (c04TreeFacts, []c04Problem) {
 	var probs []c04Problem
-	add := func(oracle, sig, msg string) { probs = append(probs, c04Problem{oracle, sig, msg}) }
-	facts := c04TreeFacts{LeafDel: map[string]bool{}}
+	add := func(oracle, sig, msg string) { probs = append(probs, c04Problem{Oracle: oracle, Sig: sig, Msg: msg}) }
+	facts := c04TreeFacts{}
+	if lists {
+		facts.LeafDel = map[string]bool{}
+	}
 	isParent := make(map[string]bool, len(tree))
 	for k, info := range tree {
 		if info == nil {
@@ -351,8 +366,11 @@ func c04CheckTree(ctx context.Context, tree RevTree, full bool) (c04TreeFacts, [
 		if isParent[k] {
 			continue
 		}
-		facts.Leaves = append(facts.Leaves, k)
-		facts.LeafDel[k] = info.Deleted
+		facts.NLeaves++
+		if lists {
+			facts.Leaves = append(facts.Leaves, k)
+			facts.LeafDel[k] = info.Deleted
+		}
 		if !info.Deleted {
 			facts.LiveLeaves++
 		}
@@ -361,6 +379,9 @@ func c04CheckTree(ctx context.Context, tree RevTree, full bool) (c04TreeFacts, [
 		}
 	}
 	sort.Strings(facts.Leaves)
+	if !lists && len(probs) > 0 { // rebuild with lists for the messages
+		return c04CheckTreeLevel(ctx, tree, true, full)
+	}
 
 	w, branched, inConflict := tree.winningRevision(ctx)
 	if w != facts.Winner {
@@ -385,8 +406,11 @@ func c04CheckTree(ctx context.Context, tree RevTree, full bool) (c04TreeFacts, [
 		add("winner", "winningRevision-differs-from-independent-maximum|"+cls,
 			fmt.Sprintf("winningRevision()=%q, but the leaf maximising (not deleted, generation, digest) is %q; leaves %v", w, facts.Winner, c04LeafList(facts)))
 	}
-	if branched != (len(facts.Leaves) > 1) {
-		add("indicators", "branched-disagrees-with-leaf-count", fmt.Sprintf("winningRevision() branched=%v with %d leaves %v", branched, len(facts.Leaves), c04LeafList(facts)))
+	if !lists && (w != facts.Winner || branched != (facts.NLeaves > 1) || inConflict != (facts.LiveLeaves > 1)) {
+		return c04CheckTreeLevel(ctx, tree, true, full)
+	}
+	if branched != (facts.NLeaves > 1) {
+		add("indicators", "branched-disagrees-with-leaf-count", fmt.Sprintf("winningRevision() branched=%v with %d leaves %v", branched, facts.NLeaves, c04LeafList(facts)))
 	}
 	if inConflict != (facts.LiveLeaves > 1) {
 		add("indicators", "inConflict-disagrees-with-live-leaf-count", fmt.Sprintf("winningRevision() inConflict=%v with %d non-deleted leaves %v", inConflict, facts.LiveLeaves, c04LeafList(facts)))
@@ -448,6 +472,10 @@ func c04LeafList(f c04TreeFacts) []string {
 
 func c04Report(run *vlib.Run, where string, probs []c04Problem, witness any) {
 	for _, p := range probs {
+		if p.Global {
+			run.Violation(p.Oracle, "C04|"+p.Sig, p.Msg+" (seen at "+where+")", witness)
+			continue
+		}
 		run.Violation(p.Oracle, "C04|"+where+"|"+p.Sig, p.Msg, witness)
 	}
 }
@@ -457,7 +485,7 @@ func c04Report(run *vlib.Run, where string, probs []c04Problem, witness any) {
 // an ancestor that arrived through a descendant's history has no flag of its own.
 func c04CompareToModel(tree RevTree, facts c04TreeFacts, m c04ModelFacts) []c04Problem {
 	var probs []c04Problem
-	add := func(oracle, sig, msg string) { probs = append(probs, c04Problem{oracle, sig, msg}) }
+	add := func(oracle, sig, msg string) { probs = append(probs, c04Problem{Oracle: oracle, Sig: sig, Msg: msg}) }
 	for id, p := range m.Nodes {
 		info := tree[id]
 		if info == nil {
@@ -555,11 +583,11 @@ func c04RoundTrip(ctx context.Context, tree RevTree) (RevTree, []c04Problem) {
 	var probs []c04Problem
 	raw, err := base.JSONMarshal(tree)
 	if err != nil {
-		return nil, []c04Problem{{"codec", "marshal-error", err.Error()}}
+		return nil, []c04Problem{{Oracle: "codec", Sig: "marshal-error", Msg: err.Error()}}
 	}
 	var back RevTree
 	if err := base.JSONUnmarshal(raw, &back); err != nil {
-		return nil, []c04Problem{{"codec", "unmarshal-of-own-encoding-fails", fmt.Sprintf("%s: %v", raw, err)}}
+		return nil, []c04Problem{{Oracle: "codec", Sig: "unmarshal-of-own-encoding-fails", Msg: fmt.Sprintf("%s: %v", raw, err)}}
 	}
 	if ok, why := c04TreeEqual(tree, back); !ok {
 		cls := "other"
@@ -577,7 +605,7 @@ func c04RoundTrip(ctx context.Context, tree RevTree) (RevTree, []c04Problem) {
 		case strings.Contains(why, "entries"), strings.Contains(why, "missing"):
 			cls = "entries"
 		}
-		probs = append(probs, c04Problem{"codec", "decoded-tree-differs|" + cls, fmt.Sprintf("marshal->unmarshal changed the tree: %s; encoding %s", why, raw)})
+		probs = append(probs, c04Problem{Oracle: "codec", Sig: "decoded-tree-differs|" + cls, Msg: fmt.Sprintf("marshal->unmarshal changed the tree: %s; encoding %s", why, raw)})
 	}
 	return back, probs
 }
@@ -591,7 +619,7 @@ func c04CheckPrune(ctx context.Context, before RevTree, bf c04TreeFacts, depth u
 	after := before.copy()
 	after.pruneRevisions(ctx, depth, bf.Winner)
 	af, probs := c04CheckTree(ctx, after, true)
-	add := func(oracle, sig, msg string) { probs = append(probs, c04Problem{oracle, sig, msg}) }
+	add := func(oracle, sig, msg string) { probs = append(probs, c04Problem{Oracle: oracle, Sig: sig, Msg: msg}) }
 	for _, l := range bf.Leaves {
 		if bf.LeafDel[l] {
 			continue
@@ -620,6 +648,9 @@ func c04CheckPrune(ctx context.Context, before RevTree, bf c04TreeFacts, depth u
 		if info.Deleted != old.Deleted {
 			add("prune", "tombstone-flag-changed", fmt.Sprintf("%q deleted %v -> %v", k, old.Deleted, info.Deleted))
 		}
+	}
+	if len(after) == len(before) && len(probs) == 0 {
+		return after, probs // nothing removed: nothing more to decide
 	}
 	again := before.copy()
 	again.pruneRevisions(ctx, depth, bf.Winner)
@@ -710,12 +741,22 @@ func (c *c04Counters) flush(run *vlib.Run) {
 func TestVerif_C04_Tree(t *testing.T) {
 	run := vlib.Start(t, "C04", "tree")
 	defer run.Finish()
+	defer debug.SetGCPercent(debug.SetGCPercent(c04GCPercent())) // tiny live heap, hundreds of millions of small allocations
 	ctx := base.TestCtx(t)
 	var total c04Counters
 	for _, u := range c04Universes(run) {
 		var sets []c04Set
 		c04EnumSets(u.Gens, u.MaxRev, false, func(s c04Set) { sets = append(sets, s) })
 		run.Count("revision_sets", len(sets))
+		mid := sets[len(sets)/2]
+		run.Sample(map[string]any{"universe": u.Name, "generations": u.Gens, "sets": len(sets), "example_set": mid.key(), "example_winner": mid.modelFacts(nil).Winner,
+			"example_push_histories": func() [][]string {
+				var h [][]string
+				for i := range mid {
+					h = append(h, mid.history(i))
+				}
+				return h
+			}()})
 		seedRand := run.Rand().Fork(vlib.HashStr(u.Name))
 		c04Parallel(len(sets), func(_ int, si int) {
 			local := map[string]int{}
@@ -746,25 +787,32 @@ func c04TreeSet(ctx context.Context, run *vlib.Run, u c04Universe, s c04Set, r *
 	}
 	var final RevTree
 	var finalFacts c04TreeFacts
+	hists := make([][]string, len(s))
+	for i := range s {
+		hists[i] = s.history(i)
+	}
 	orders := 0
+	defer func() { run.Evals(orders) }()
 	c04Perms(len(s), func(order []int) {
 		orders++
-		run.Eval()
-		tree := RevTree{}
+		tree := make(RevTree, len(s))
 		for step, i := range order {
-			_, err := c04TreePush(ctx, tree, s.history(i), s[i].Deleted)
+			_, err := c04TreePush(ctx, tree, hists[i], s[i].Deleted)
 			if err != nil {
 				run.Violation("insertion", "C04|tree|valid-revision-rejected-by-addRevision", fmt.Sprintf("push %v: %v", s.history(i), err), wit(order, step))
 				return
 			}
-			_, probs := c04CheckTree(ctx, tree, false)
+			if step == len(order)-1 {
+				break // the final tree gets the full monitor below
+			}
+			_, probs := c04CheckTreeLevel(ctx, tree, false, false)
 			cnt["trees_checked"]++
 			if len(probs) > 0 {
 				c04Report(run, "tree|after-push", probs, wit(order, step))
 				return
 			}
 		}
-		facts, probs := c04CheckTree(ctx, tree, true)
+		facts, probs := c04CheckTree(ctx, tree, final == nil) // the accessor cross-checks once per set
 		cnt["trees_checked"]++
 		probs = append(probs, c04CompareToModel(tree, facts, model)...)
 		if len(probs) > 0 {
@@ -854,10 +902,11 @@ func c04TreeSet(ctx context.Context, run *vlib.Run, u c04Universe, s c04Set, r *
 	// pruning after every push (what the database does), in sampled orders. Parents-first orders must
 	// still end with the set's non-deleted leaves and winner; any order must stay well-formed.
 	if len(s) >= 3 {
-		for depth := uint32(1); depth <= 4; depth++ {
-			for k := 0; k < 2; k++ {
+		for k := 0; k < 4; k++ {
+			{
+				depth := uint32(r.Range(1, 4))
 				order := r.Perm(len(s))
-				if k == 0 { // a random parents-first order
+				if k%2 == 0 { // a random parents-first order
 					order = s.randomLinearExtension(r)
 				}
 				pf := s.parentsFirst(order)
@@ -1020,6 +1069,7 @@ func c04Min(a, b int) int {
 func TestVerif_C04_Codec(t *testing.T) {
 	run := vlib.Start(t, "C04", "codec")
 	defer run.Finish()
+	defer debug.SetGCPercent(debug.SetGCPercent(c04GCPercent()))
 	ctx := base.TestCtx(t)
 	var total c04Counters
 
@@ -1084,6 +1134,10 @@ func TestVerif_C04_Codec(t *testing.T) {
 			c04Report(run, "codec|random-tree|prune", probs, map[string]any{"tree": c04Dump(tree), "depth": depth, "after": c04Dump(after), "case": i})
 		}
 		run.Max("max_tree_size", len(tree))
+		if i < 2 {
+			raw, _ := base.JSONMarshal(tree)
+			run.Sample(map[string]any{"random_tree": c04Dump(tree), "encoding": string(raw), "winner": facts.Winner, "pruned_to_depth": depth, "after_prune": c04Dump(after)})
+		}
 		run.Nontrivial("rand|" + strconv.Itoa(i))
 		total.add(local)
 	})
@@ -1117,4 +1171,11 @@ func c04CodecCase(ctx context.Context, run *vlib.Run, tree RevTree, kind string,
 	if _, probs := c04RoundTrip(ctx, back); len(probs) > 0 {
 		c04Report(run, "codec|"+kind+"|second-round-trip", probs, wit)
 	}
+}
+
+func c04GCPercent() int {
+	if v, err := strconv.Atoi(os.Getenv("C04_GC_PERCENT")); err == nil {
+		return v
+	}
+	return 400
 }
